@@ -33,6 +33,8 @@ profile('core-ends', P.gen_core, cancels=0.25, p_resp_pub=0.7, p_req_pub=0.6, p_
         kinds=[(2, 'rr'), (3, 'stream'), (5, 'channel'), (1, 'fnf')])
 
 profile('core-ids', P.gen_ids, cancels=0.15)
+profile('core-ids-ends', P.gen_ids, cancels=0.0, errors=False, stall_faults=0.0,
+        rr_modes=[(4, 'now'), (2, 'delay'), (2, 'hops')])  # only normal endings: no stale frames when a tiny id space comes round
 
 profile('parser', XP.gen_parser)
 
@@ -75,7 +77,8 @@ CHECKS = {
     'C03': {'profiles': [('core-frag', 3000, 120000), ('core-stall', 1500, 60000), ('core-msg', 1000, 40000)],
             'oracles': [O.oracle_c03], 'level': 'exploration'},
     'C04': {'profiles': [('parser', 20000, 600000)], 'oracles': [XP.oracle_c04], 'level': 'exploration'},
-    'C05': {'profiles': [('core-stall', 4000, 160000), ('core-frag', 1500, 60000), ('core', 1000, 40000)],
+    'C05': {'profiles': [('core-stall', 3500, 140000), ('core-frag', 1500, 60000), ('core', 1000, 40000),
+                         ('core-cancel', 1000, 40000)],
             'oracles': [O.oracle_c05], 'level': 'exploration'},
     'C06': {'profiles': [('core-credit', 4000, 160000), ('core', 1500, 60000), ('core-stall', 1000, 40000),
                          ('core-eager', 1000, 40000), ('core-await', 1000, 40000)],
@@ -104,7 +107,8 @@ CHECKS = {
             'oracles': {'hostile': [PH.oracle_c12_hostile], 'buggify': [PH.oracle_c12_buggify]}, 'level': 'exploration'},
     'C19': {'profiles': [('routing', 10000, 300000)], 'oracles': [XRT.oracle_c19], 'level': 'exploration'},
     'C20': {'profiles': [('rx', 8000, 250000)], 'oracles': [XRX.oracle_c20], 'level': 'exploration'},
-    'C10': {'profiles': [('core-ends', 4000, 160000), ('core', 1500, 60000), ('core-frag', 1000, 40000)],
+    'C10': {'profiles': [('core-ends', 3500, 140000), ('core', 1500, 60000), ('core-frag', 1000, 40000),
+                         ('core-ids-ends', 1000, 40000)],
             'oracles': [O.oracle_c10], 'level': 'exploration'},
 }
 
